@@ -169,6 +169,7 @@ structure Srv where
   inbuf : Bytes := []
   expectCont : Nat := 0
   peerFrameSize : Nat := 0         -- sc.clientS.frameSize: 0 until the first SETTINGS
+  peerTableSize : Nat := Gen.c_defaultHeaderTableSize   -- sc.clientS.tableSize: persists across SETTINGS frames
   rlStopped : Bool := false
   returned : Bool := false
   /-- set when the code's behaviour depends on pool aliasing the model does not represent (F17) -/
